@@ -280,8 +280,17 @@ class CM:
 
 
 # ------------------------------------------------------------------------------- build
+def movable(chart):
+    """index of a composite state at depth >= 3 (its parent is not the root), or None"""
+    cm = CM(chart)
+    for i in range(cm.n):
+        if cm.depth[i] >= 3 and cm.kind[i] in (COMPOUND, ORTH) and cm.kind[0] in (COMPOUND, ORTH):
+            return i
+    return None
+
+
 def build(chart, naming='id', code=None, order=None, tr_order=None, name='g', preamble=None,
-          priorities=None):
+          priorities=None, moved=None):
     """construct the chart through the real public model API.
     code(kind, ident) -> code string or None; kind in 'entry','exit' (ident = state index),
     'guard','action' (ident = transition index).  Returns (statechart, [Transition])."""
@@ -294,6 +303,8 @@ def build(chart, naming='id', code=None, order=None, tr_order=None, name='g', pr
     for i in idxs:
         k, nm = cm.kind[i], cm.names[i]
         pn = None if cm.par[i] < 0 else cm.names[cm.par[i]]
+        if moved is not None and i == moved:
+            pn = cm.names[0]        # first attached under the root, moved to its place after a warm-up run
         en, ex = code('entry', i), code('exit', i)
         if k == BASIC:
             st = BasicState(nm, on_entry=en, on_exit=ex)
@@ -317,4 +328,20 @@ def build(chart, naming='id', code=None, order=None, tr_order=None, name='g', pr
                         priority=None if priorities is None else priorities[t])
         sc.add_transition(tr)
         trs[t] = tr
+    if moved is not None:
+        from sismic.interpreter import Interpreter
+        from sismic.model import CompoundState as _C, HistoryStateMixin as _H
+        try:    # the chart is used (depths, configurations are computed) before it is edited into its final shape
+            warm = Interpreter(sc, initial_context={'G': lambda *a: False, 'A': lambda *a: None, 'P': lambda *a: None})
+            warm.execute_once()
+            warm.queue('a').execute_once()
+        except Exception:
+            pass
+        sc.move_state(cm.names[moved], cm.names[cm.par[moved]])
+        for i in range(cm.n):           # move_state resets initial/memory that pointed to the moved state
+            st = sc.state_for(cm.names[i])
+            if isinstance(st, _C):
+                st.initial = cm.names[cm.init[i]]
+            elif isinstance(st, _H):
+                st.memory = cm.names[cm.init[i]]
     return sc, trs, cm
